@@ -190,6 +190,15 @@ func (eval Evaluator) MultiplyByDiagMatrix(ctIn *rlwe.Ciphertext, matrix LinearT
 		keys = keys[1:]
 	}
 
+	if len(keys) == 0 {
+		// Only the main diagonal: no rotated term initializes the accumulators,
+		// which still hold the previous content of opOut and of the buffer.
+		c0OutQP.Q.Zero()
+		c0OutQP.P.Zero()
+		c1OutQP.Q.Zero()
+		c1OutQP.P.Zero()
+	}
+
 	for i, k := range keys {
 
 		k &= (slots - 1)
